@@ -952,6 +952,26 @@ class Interp:
                     r = self.fresh(self._loop_result(sid, count, name_first_terms[(k, n)], gen_t, s, it), v.shape, v.kind, st)
                     r.obj.valkind = v.obj.valkind
                     e_[n] = r
+        # after the loop a name assigned in its body (the loop variable, what was computed from it) holds the value of the LAST
+        # iteration: whatever reads it later - code after the loop, a closure defined in the body and called afterwards - sees
+        # that one value, not the value of "its" iteration
+        isym = "i@%s" % sid
+        lsym = "last@%s" % sid
+        for k, n in keys:
+            if k != 0:
+                continue
+            e_ = scopes[k][0]
+            v = e_.get(n)
+            if carried_syms.get(n) is not None:
+                continue
+            if isinstance(v, VNum) and v.term is not None and isym in v.term.syms():
+                nv_ = VNum(v.kind, T.rename_syms(v.term, {isym: lsym}), pos=getattr(v, "pos", False), nonneg=getattr(v, "nonneg", False))
+                e_[n] = nv_
+            elif isinstance(v, VTens) and v.term is not None and isym in v.term.syms() and v.obj.origin == "fresh":
+                r = self.fresh(T.rename_syms(v.term, {isym: lsym}), v.shape, v.kind, st)
+                r.obj.valkind = v.obj.valkind
+                r.obj.dtype_src = v.obj
+                e_[n] = r
         if not gen_broke:
             self.exec_block(st.orelse)
 
